@@ -127,7 +127,10 @@ def run_property(modname: str, tier: str = "quick", write_baseline=False) -> int
         if replayer is not None and (o.witness is not None or getattr(m, "REPLAY_WITHOUT_WITNESS", False)) \
                 and "concretiser_error" not in (o.witness if isinstance(o.witness, dict) else {}):
             try:
-                res = replayer(o.name, o.witness)
+                import contextlib
+                import io
+                with contextlib.redirect_stdout(io.StringIO()), contextlib.redirect_stderr(io.StringIO()):
+                    res = replayer(o.name, o.witness)
                 confirmed, observation = bool(res.get("confirmed")), res
             except Exception as e:
                 observation = {"replay_error": f"{type(e).__name__}: {e}", "trace": traceback.format_exc()[-800:]}
@@ -181,7 +184,10 @@ def run_property(modname: str, tier: str = "quick", write_baseline=False) -> int
     native_results = []
     for nname, nfn in getattr(m, "NATIVE", []):
         try:
-            res = nfn()
+            import contextlib
+            import io
+            with contextlib.redirect_stdout(io.StringIO()), contextlib.redirect_stderr(io.StringIO()):
+                res = nfn()
         except Exception as e:
             res = {"ok": False, "observation": {"error": f"{type(e).__name__}: {e}", "trace": traceback.format_exc()[-600:]}}
         native_results.append((nname, res))
